@@ -68,7 +68,7 @@ func acgFilter(evs []any) []any {
 	var out []any
 	for _, e := range evs {
 		switch e.(type) {
-		case *proto.ConfigUpdate, *proto.Encapsulation:
+		case *proto.ConfigUpdate, *proto.Encapsulation, *calc.DatastoreNotReady:
 			// emitted by calc-graph nodes that the acg ops do not model (config batcher, encap resolver)
 			continue
 		}
